@@ -25,16 +25,25 @@ IsProperPrefix(a, b) == Len(a) < Len(b) /\ SubSeq(b, 1, Len(a)) = a
 
 TKeys ==
   /\ l <= Len(Rec) /\ Rec[l].ev = "keys"
-  /\ LET vs == Rec[l].vals enc == Rec[l].enc n == Len(vs)
-         ok(v) == ~IsNaN(v) /\ ~IsOpaqueFloat(v)
+  /\ LET vs == Rec[l].vals enc == Rec[l].enc n == Len(vs) fo == Rec[l].ford
+         ok(v) == ~IsNaN(v)
+         (* numbers outside the exact range of CypherVal (tiny and huge magnitudes) are ordered by their IEEE representation: *)
+         (* sign, then the magnitude bits (three limbs), reversed for negative numbers; both zeros are equal                 *)
+         MagCmp3(x, y) == IF x[2] # y[2] THEN (IF x[2] < y[2] THEN -1 ELSE 1)
+                          ELSE IF x[3] # y[3] THEN (IF x[3] < y[3] THEN -1 ELSE 1)
+                          ELSE IF x[4] # y[4] THEN (IF x[4] < y[4] THEN -1 ELSE 1) ELSE 0
+         IeeeCmp(x, y) == IF x[1] # y[1] THEN (IF x[1] < y[1] THEN -1 ELSE 1)
+                          ELSE IF x[1] >= 0 THEN MagCmp3(x, y) ELSE 0 - MagCmp3(x, y)
+         Cmp(i, j) == IF vs[i][1] = "float" /\ (IsOpaqueFloat(vs[i]) \/ IsOpaqueFloat(vs[j])) THEN IeeeCmp(fo[i], fo[j])
+                      ELSE KCmp(vs[i], vs[j])
          badOrder == {p \in (1..n) \X (1..n) :
                         vs[p[1]][1] = vs[p[2]][1] /\ ok(vs[p[1]]) /\ ok(vs[p[2]]) /\
-                        SeqCmpNat(enc[p[1]], enc[p[2]], 1) # KCmp(vs[p[1]], vs[p[2]])}
+                        SeqCmpNat(enc[p[1]], enc[p[2]], 1) # Cmp(p[1], p[2])}
          badPrefix == {p \in (1..n) \X (1..n) : IsProperPrefix(enc[p[1]], enc[p[2]])}
      IN /\ (IF badOrder = {} THEN TRUE ELSE
               LET p == CHOOSE q \in badOrder : TRUE IN
               Emit([prop |-> "C27", at |-> l,
-                    kind |-> IF KCmp(vs[p[1]], vs[p[2]]) = 0 THEN "equal-values-different-keys"
+                    kind |-> IF Cmp(p[1], p[2]) = 0 THEN "equal-values-different-keys"
                              ELSE IF enc[p[1]] = enc[p[2]] THEN "different-values-equal-keys" ELSE "order-not-preserved",
                     a |-> vs[p[1]], b |-> vs[p[2]], ea |-> enc[p[1]], eb |-> enc[p[2]], count |-> Cardinality(badOrder)]))
         /\ (IF badPrefix = {} THEN TRUE ELSE
